@@ -117,13 +117,21 @@ fn float_values(tape: &[u32], st: &mut Stats) -> CaseResult {
     ct_vars(&tree, &mut used);
     used.sort_by_key(|i| VAR_NAMES[*i]);
     let names: Vec<String> = used.iter().map(|i| VAR_NAMES[*i].to_string()).collect();
-    let mut points: Vec<(Vec<f64>, f64)> = vec![];
+    let mut points: Vec<(Vec<f64>, f64, f64)> = vec![];
     for _ in 0..12 {
         let full: Vec<f64> = (0..VAR_NAMES.len()).map(|_| [0.3 + t.unit_f64() * 2.0, -2.0 + t.unit_f64() * 4.0][t.choose(2)]).collect();
         let mut ok = true;
         let v: f64 = eval_ct(&tree, &full, &mut ok);
         if ok {
-            points.push((used.iter().map(|i| full[*i]).collect(), v));
+            // conditioning of the value at this point (poles, fract of huge numbers, power chains)
+            let f = |p: &[f64]| {
+                let mut o = true;
+                let r: f64 = eval_ct(&tree, p, &mut o);
+                o.then_some(r)
+            };
+            if let Some(sens) = sensitivity(&f, &full) {
+                points.push((used.iter().map(|i| full[*i]).collect(), v, sens));
+            }
         }
         if points.len() >= 4 {
             break;
@@ -141,9 +149,9 @@ fn float_values(tape: &[u32], st: &mut Stats) -> CaseResult {
         ("DeepEx<f64>::parse", Box::new(|p: &[f64]| { let e = ex_msg(exmex::DeepEx::<f64>::parse(&text))?; Ok((e.var_names().to_vec(), ex_msg(e.eval(p))?)) })),
         ("parse<f32>", Box::new(|p: &[f64]| { let e = ex_msg(exmex::parse::<f32>(&text))?; let q: Vec<f32> = p.iter().map(|x| *x as f32).collect(); Ok((e.var_names().to_vec(), ex_msg(e.eval(&q))? as f64)) })),
     ];
-    let pts: Vec<(Vec<f64>, f64)> = if points.is_empty() { vec![(vec![1.0; names.len()], f64::NAN)] } else { points.clone() };
+    let pts: Vec<(Vec<f64>, f64, f64)> = if points.is_empty() { vec![(vec![1.0; names.len()], f64::NAN, 0.0)] } else { points.clone() };
     for (what, f) in routes.iter() {
-        for (p, want) in &pts {
+        for (p, want, sens) in &pts {
             match guard(|| f(p)) {
                 Err(pn) => return Err(fail(&format!("C01/float/{what}/panic"), format!("`{text}` panics: {pn}"), describe())),
                 Ok(Err(e)) => return Err(fail(&format!("C01/float/{what}/rejected"), format!("well-formed `{text}` fails: {e}"), describe())),
@@ -153,7 +161,7 @@ fn float_values(tape: &[u32], st: &mut Stats) -> CaseResult {
                     }
                     // f32: only acceptance and variables are judged (rounding of the inputs is amplified
                     // arbitrarily by exp/tan/powers, so no tolerance is sound)
-                    if *what != "parse<f32>" && !points.is_empty() && !close(v, *want, 1e-9) {
+                    if *what != "parse<f32>" && !points.is_empty() && !close_cond(v, *want, 1e-9, *sens) {
                         return Err(fail(
                             &format!("C01/float/{what}/wrong-value"),
                             format!("`{text}` at {p:?} = {v}, documented semantics give {want}"),
@@ -189,7 +197,7 @@ pub fn def() -> PropDef {
             },
             SubCheck {
                 name: "float_values",
-                rule: "tape -> tree(1-10 nodes over all 34 default float operators, 1-4 variables) x rendering (call form for atan2/min/max, juxtaposition, braces); FlatEx<f64> folded/unfolded, DeepEx<f64>, parse<f32> evaluated at up to 4 points inside the domain and compared with an independent evaluation of the tree (1e-9 relative; f32: acceptance and variables only); non-trivial = >=4 nodes with an interior point; distinct by text",
+                rule: "tape -> tree(1-10 nodes over all 34 default float operators, 1-4 variables) x rendering (call form for atan2/min/max, juxtaposition, braces); FlatEx<f64> folded/unfolded, DeepEx<f64>, parse<f32> evaluated at up to 4 points inside the domain and compared with an independent evaluation of the tree (1e-9 relative, widened by 10x the measured sensitivity of the value to 1e-11 perturbations of the point; f32: acceptance and variables only); non-trivial = >=4 nodes with an interior point; distinct by text",
                 kind: Kind::Tape { len: 250, quick: 5_000, thorough: 400_000, f: float_values },
             },
         ],
